@@ -1290,7 +1290,9 @@ func (rr *IPSECKEY) parse(c *zlexer, o string) *ParseError {
 		return pErr
 	}
 	rr.PublicKey = s
-	return slurpRemainder(c)
+	// endingToString has consumed the rest of the line: there is no
+	// remainder left to skip (reading on would eat the next record).
+	return nil
 }
 
 func (rr *AMTRELAY) parse(c *zlexer, o string) *ParseError {
